@@ -34,6 +34,9 @@ def reads_heap(val, stable=()):
     for n in ast.walk(val):
         if isinstance(n, ast.Attribute):
             return True
+        if isinstance(n, ast.Call) and isinstance(n.func, ast.Name) and n.func.id not in PURE_FUNCS and not n.func.id[:1].isupper() \
+                and any(not isinstance(a, ast.Constant) for a in n.args):
+            return True             # an effect-free project function kept as an expression: it reads whatever its arguments reach
         if isinstance(n, ast.Subscript):
             if isinstance(n.value, ast.Name) and n.value.id.startswith('_c') and isinstance(n.slice, ast.Constant):
                 continue            # component of a returned tuple, or a constant key of a returned option table
@@ -348,6 +351,10 @@ class SymPaths:
         return out
 
     def ev(self, e, path):
+        if isinstance(e, ast.UnaryOp) and isinstance(e.op, ast.Not):
+            # `not x` in value position is the boolean True / False, decided by the truth of x
+            t, f = self.cond(e.operand, path)
+            return [(q, ast.Constant(value=False)) for q in t] + [(q, ast.Constant(value=True)) for q in f]
         if isinstance(e, ast.IfExp):
             t, f = self.cond(e.test, path)
             out = []
@@ -373,6 +380,10 @@ class SymPaths:
                         nxt += (f if is_or else t)
                 cur = nxt
             return out
+        if self.named_constants and isinstance(e, ast.Attribute) and isinstance(e.value, ast.Name) and e.value.id not in path.env:
+            c = self._class_constant(e)
+            if c is not None:
+                return [(path, c)]
         if isinstance(e, ast.Name):
             if isinstance(e.ctx, ast.Load) and e.id in path.env:
                 return [(path, copy.deepcopy(path.env[e.id]))]
@@ -454,6 +465,29 @@ class SymPaths:
                 return False
         return seen
 
+    def _class_constant(self, e):
+        """<Class>.<NAME> where the class body binds NAME once to a number / string (the project's constant tables: Chars, Brackets,
+        ElementType, TokenType ...) is spelled out: renaming a constant or comparing with the literal changes nothing, and two
+        different constants are visibly different values"""
+        name = e.value.id
+        if name in self.f.locals or name in self.f.params:
+            return None
+        key = (name, e.attr)
+        cache = self.__dict__.setdefault('_cc_cache', {})
+        if key in cache:
+            return copy.deepcopy(cache[key])
+        out = None
+        ent = self.p.resolve_name(self.f, name)
+        if ent is not None and ent.kind == 'class':
+            cls = ent.obj
+            vals = [st.value for st in cls.node.body if isinstance(st, ast.Assign) and any(isinstance(t, ast.Name) and t.id == e.attr for t in st.targets)]
+            vals += [st.value for st in cls.node.body if isinstance(st, ast.AnnAssign) and isinstance(st.target, ast.Name) and st.target.id == e.attr and st.value is not None]
+            if len(vals) == 1 and isinstance(vals[0], ast.Constant) and isinstance(vals[0].value, (int, str)) and not isinstance(vals[0].value, bool) \
+                    and not any(isinstance(b, (ast.Name, ast.Attribute)) and 'Enum' in src_of(b) for b in cls.node.bases):
+                out = ast.Constant(value=vals[0].value)
+        cache[key] = out
+        return copy.deepcopy(out)
+
     def _named_constant(self, name, depth=0):
         """a module-level name bound once to a number / string or to an arithmetic / bit combination of class constants
         (ParserState.A | ParserState.B) is spelled out, so naming a constant changes nothing"""
@@ -509,6 +543,11 @@ class SymPaths:
                 path.events = path.events + (('@new', ast.Assign(targets=[ast.Name(id=sym, ctx=ast.Store())], value=value), path.conds),)
                 value = ast.Name(id=sym, ctx=ast.Load())
             path.env[target.id] = value
+            if target.id in self.f.nonlocal_decl or target.id in getattr(self.f, 'globals_decl', ()):
+                # rebinding a variable of the enclosing function / module is visible outside: recorded as a store to `_closure_.<name>`
+                tgt = ast.Attribute(value=ast.Name(id='_closure_', ctx=ast.Load()), attr=target.id, ctx=ast.Store())
+                path.stores = path.stores + ((tgt, value, path.conds),)
+                path.events = path.events + (('=', ast.Assign(targets=[tgt], value=value), path.conds),)
         elif isinstance(target, (ast.Tuple, ast.List)) and isinstance(value, (ast.Tuple, ast.List)) and len(value.elts) == len(target.elts):
             for t, v in zip(target.elts, value.elts):
                 self.assign(t, v, path)
